@@ -453,20 +453,36 @@ def gen_object(rng, cols):
     return o
 
 
+UNRESERVED = 'abcxyzABZ0129-._~'
+SPECIAL = [' ', '\n', '\t', '\r', '"', "'", '\\', '%', '/', ':', '?', '#', '{', '}', '<', '>', '|', '^', '`', '&', '=', '+', ',', ';', '@', '[', ']',
+           'é', 'ß', 'İ', 'ǆ', '日', '😀', '\u200b', '\x07', '\x08', '\x0c', '\x1f', '\x7f', '\x85', '\xa0', '\u2028', '\ufeff', '\U000e0001']
+
+
+def gen_value(rng, pool):
+    r = rng.random()
+    if r < 0.45:
+        return rng.choice(pool)
+    tok = ''.join(rng.choice(UNRESERVED) for _ in range(rng.randint(0, 4)))
+    if r < 0.70:
+        sp = rng.choice(SPECIAL)
+        return rng.choice([tok + sp, sp + tok, tok + sp + tok[:1], sp])
+    return ''.join(rng.choice(UNRESERVED) if rng.random() < 0.6 else rng.choice(SPECIAL) for _ in range(rng.randint(0, 6)))
+
+
 def gen_table(rng, key, pool, ncols=None, nrows=None, cols_pool=COLS, p_null=0.15, working=0.0):
     n = ncols or rng.randint(2, 4)
     names = rng.sample(cols_pool, n)
     if working and rng.random() < working:
         names[rng.randrange(n)] = rng.choice(WORKING_COLS)
     m = nrows if nrows is not None else rng.choice([0, 1, 2, 3, 3, 4, 5, 6])
-    rows = [[None if rng.random() < p_null else rng.choice(pool) for _ in names] for _ in range(m)]
+    rows = [[None if rng.random() < p_null else (gen_value(rng, pool) if pool is NASTY else rng.choice(pool)) for _ in names] for _ in range(m)]
     return {'key': key, 'kind': 'csv', 'cols': names, 'rows': rows}
 
 
-def gen_core_case(rng, hard=False, joins=True, nquads=None):
+def gen_core_case(rng, hard=False, joins=True, nquads=None, nrows=None):
     pool = NASTY if hard else SIMPLE
     nsrc = rng.choice([1, 1, 2])
-    sources = [gen_table(rng, 'S%d' % i, pool, working=0.05 if hard else 0.0) for i in range(nsrc)]
+    sources = [gen_table(rng, 'S%d' % i, pool, working=0.05 if hard else 0.0, nrows=nrows) for i in range(nsrc)]
     ntm = rng.choice([1, 1, 2, 2, 3])
     doc = []
     for i in range(ntm):
